@@ -18,7 +18,10 @@ def race_check(tier, seed, harn, bindir, goenv):
     import subprocess, os
     exe = os.path.join(bindir, "siot-diff-race")
     goenv = dict(goenv, CGO_ENABLED="1")
-    b = subprocess.run(["go", "build", "-race", "-tags", "verif", "-o", exe, "./cmd/siot-diff"], cwd=harn, env=goenv,
+    # mutation testing on a scratch copy of the repository: ./check has written a -modfile copy of harness/go.mod
+    alt = os.path.join(os.path.dirname(bindir), "go.alt.mod")
+    mod = ["-modfile=" + alt] if os.environ.get("VERIF_REPO", "/repo") != "/repo" and os.path.exists(alt) else []
+    b = subprocess.run(["go", "build"] + mod + ["-race", "-tags", "verif", "-o", exe, "./cmd/siot-diff"], cwd=harn, env=goenv,
                        capture_output=True, text=True, timeout=900)
     if b.returncode != 0:
         return ("race: go build -race of the load harness", False, "go build -race failed:\n" + b.stdout + b.stderr)
@@ -225,7 +228,7 @@ PROPS = {
                     "the verif hook VerifRuleFeed hands a batch to the Run loop through the same channel the up.<parent>.* callback uses; the callback itself (subject split, protobuf decode) is three lines outside the model"],
         "modelled": ["client/rule.go ruleProcessPoints, processError, ruleRunActions (set-value and unknown actions), ruleInactiveActions, sendPoint and the run closure modelled by hand (Siot/Model/Rule.lean); shape re-extracted on every run (gen_rule_pinned)",
                      "float64 comparisons are modelled on bit patterns (sign-magnitude order, NaN unordered); the driver cross-checks them against Lean's Float on every case",
-                     "notify and playAudio actions are not modelled (they need a store / an audio device; playAudio calls log.Fatal on a missing file) and are not generated",
+                     "the notify action is not modelled (it needs a store); of the play-audio action only the failure to open its file is modelled and generated (an action error after the repair; playing an existing file starts an external player)",
                      "time.Now() stamps of published points are not compared; configuration changes go through data.MergePoints (C10/C11 model) and are restricted to the value field",
                      "the 10 s schedule ticker is replaced by explicit tick events (a case lasts milliseconds)"],
         "assumptions": [],
@@ -321,7 +324,7 @@ PROPS = {
                 "middle, and three final passes. A pass = client.VerifSyncOnce = the real SyncClient.syncNode(RA, G) over real connections (no-echo), without the Run loop. All writes carry the wall clock of "
                 "their token; dumps report a time as the index of the token during which it was taken (the model uses scattered logical times with the same order). Observation = op results + the subtree of G "
                 "on A and on B (deleted nodes included; type, parent, points, edge points with times). The model is run on the same tokens and must reproduce BOTH dumps exactly; oracle = both dumps equal as "
-                "sets of nodes and every identity written shows the newest write; distinct = distinct case line",
+                "sets of nodes and every identity written shows the newest write; distinct = distinct case line; plus end-to-end cases (3 quick, 25 thorough): the REAL SyncClient under a Manager on a second pair of instances (period 1 s, real-time forwarding, NATS reconnects), with the upstream instance stopped and started again on the same file and ports / the sync node disabled and enabled / no interruption, writes and node creations on both sides around it, then a wait (at most 30 s) for both sides to show the same subtree; judged by the specification only",
         "trusted": ["embedded nats-server / nats.go request-reply", "modernc SQLite as in C05", "CRC-32 (modelled bit-serially): the model's hash decisions are the implementation's as long as no 32-bit collision happens in one of the two and not the other"],
         "modelled": ["client/sync.go syncNode, sendNodesRemote, sendNodesLocal and client.SendNode modelled by hand on two copies of the store model (Siot/Model/Sync.lean); shape re-extracted every run (gen_sync_pinned)",
                      "the Run loop of the sync client — real-time forwarding in both directions, (re)connection, the period ticker, discovery of new upstream nodes through up.<root>.*.* — is NOT modelled: link loss and recovery are rendered as 'no pass happens' / 'a pass happens'",
@@ -339,7 +342,7 @@ PROPS = {
                 "(d cases: file initialised beforehand, root id and signing key recorded) or 0-30 ms after start on a file that does not exist yet (i cases: death during first-time initialisation), "
                 "re-opens the file with store.NewSqliteDb, dumps every row, compares root id and key, and performs one more write. Oracle = the dump is the state after exactly k or k+1 batches "
                 "(k = acknowledgements received), hashes consistent, file opens with the same root and key and accepts writes; distinct = distinct case line (kill instants are wall-clock dependent: "
-                "each run explores new instants; the evidence records how many kills fell inside the run and how often the batch in flight had been committed)",
+                "each run explores new instants; the evidence records how many kills fell inside the run and how often the batch in flight had been committed); every 8th case is a SNAPSHOT case (s): the file is prepared with the store's own schema plus triggers that copy the database and its write-ahead log at EVERY row change (first-time initialisation, every point row, every hash update), the store is initialised on it and the batches run in-process, then each of the up to 400 crash images is re-opened with NewSqliteDb and must show the same root and key, consistent hashes and a prefix state of the history (during initialisation: exactly one root edge)",
         "trusted": ["SQLite (modernc.org/sqlite) transactions: atomic, and durable against process death in WAL mode with synchronous=NORMAL — the parameter of the model; power loss / OS crash are outside (SIGKILL only)",
                     "the kernel's page cache surviving the death of the process"],
         "modelled": ["process death is modelled at the granularity of batches (Siot/Model/Crash.lean): the recovered store is a prefix state; that each batch is ONE transaction, with nothing executed outside it, "
